@@ -217,8 +217,21 @@ def atoms_of(ode):
             "assignment": {a.name: a for a in tuple(ode.intermediates) + tuple(ode.state_derivatives)}}
 
 
-def compare_atoms(ode, o2, add, prefix="C11:"):
+DEFAULT_AFTER_NAMED = ":default-component-after-named-block"
+
+
+def default_assignments(ref):
+    """names of the assignments the TEXT puts into the default component, when the text also has assignments in a named expressions(...)
+    block (the listed writer defect: they are written without a header after a named block and read back as its members); else empty"""
+    if ref is None:
+        return set()
+    dflt = {n for n, a in ref.assigns.items() if a.comps == ("",)}
+    return dflt if dflt and len(dflt) < len(ref.assigns) else set()
+
+
+def compare_atoms(ode, o2, add, prefix="C11:", ref=None):
     """-> True when the name sets agree (numeric comparison is meaningful)"""
+    dflt = default_assignments(ref)
     A, B = atoms_of(ode), atoms_of(o2)
     same = True
     for kind in ("state", "parameter", "assignment"):
@@ -245,11 +258,17 @@ def compare_atoms(ode, o2, add, prefix="C11:"):
             if kind != "assignment" and (a.description or None) != (b.description or None):
                 add(f"{prefix}description-changed", f"description of {kind} {n} differs after save/reload", a.description, b.description)
             if tuple(a.components) != tuple(b.components):
-                add(f"{prefix}component-membership-changed", f"{kind} {n} sits in another component after save/reload", list(a.components), list(b.components), shrink=True, keep=True)
+                # only a default-component assignment of the text that moved is the listed defect; a state, a parameter or an assignment of a named block that moves is not
+                suf = DEFAULT_AFTER_NAMED if kind == "assignment" and n in dflt else ""
+                add(f"{prefix}component-membership-changed{suf}", f"{kind} {n} sits in another component after save/reload", list(a.components), list(b.components), shrink=True, keep=True)
     ma, mb = membership(ode), membership(o2)
     if ma != mb:
         bad = sorted(k for k in set(ma) | set(mb) if ma.get(k) != mb.get(k))
-        add(f"{prefix}component-membership-changed", "names per component differ after save/reload", {k: ma.get(k) for k in bad[:4]}, {k: mb.get(k) for k in bad[:4]}, shrink=True, keep=True)
+        moved = set()
+        for k in bad:
+            moved |= set(ma.get(k) or ()) ^ set(mb.get(k) or ())
+        suf = DEFAULT_AFTER_NAMED if moved and moved <= dflt else ""
+        add(f"{prefix}component-membership-changed{suf}", "names per component differ after save/reload", {k: ma.get(k) for k in bad[:4]}, {k: mb.get(k) for k in bad[:4]}, shrink=True, keep=True)
     return same
 
 
@@ -418,13 +437,16 @@ def roundtrip(text, points, res, shr, ode=None, what="model", upto=None):
         except Exception as e:  # noqa: BLE001
             msg = cm.short(e)
             con = novel_construct(saved, text, str(e)) if cm.exc_name(e) in ("MissingSymbolError", "UnexpectedToken", "UnexpectedCharacters", "UnexpectedInput", "UnexpectedEOF") else None
-            add(f"C11:reload-raises:{cm.exc_name(e)}" + (f":{con}" if con else ""), f"the file written by ode.save is rejected by load_ode ({what})", "a loadable file", cm.exc_site(e), msg,
-                shrink=True, base=f"C11:reload-raises:{cm.exc_name(e)}", keep=True)
+            # StateNotFoundInComponent for a text whose default component holds a state derivative next to a named expressions block: the listed
+            # writer defect (the derivative is read back as a member of the named block, which does not own the state)
+            dsuf = DEFAULT_AFTER_NAMED if cm.exc_name(e) == "StateNotFoundInComponent" and ref is not None and set(ref.deriv_names) & default_assignments(ref) else ""
+            add(f"C11:reload-raises:{cm.exc_name(e)}{dsuf}" + (f":{con}" if con else ""), f"the file written by ode.save is rejected by load_ode ({what})", "a loadable file", cm.exc_site(e), msg,
+                shrink=True, base=f"C11:reload-raises:{cm.exc_name(e)}{dsuf}", keep=True)
             return
     if upto == "reload":
         return
     stage[0] = "atoms"
-    same = compare_atoms(ode, o2, add)
+    same = compare_atoms(ode, o2, add, ref=ref)
     if not same or upto == "atoms":
         return
     stage[0] = "numeric"
